@@ -1,6 +1,6 @@
 """C19 — published messages reach exactly the current subscribers, once, in order.
 Theorems: PubSub.delivery_exact, publish_count; tie: serve engine (subscribers, publishers, disconnects) — sequential interleavings."""
-from .. import core, servesuite
+from .. import core, servesuite, concsuite
 
 
 def run(R, ctx):
@@ -8,7 +8,15 @@ def run(R, ctx):
                                "Pub/Sub: channels incl. the empty name and one containing CR/LF; payloads from the binary alphabet; a publisher "
                                "subscribed to its own channel; resubscription; client-side closes; publishing from another selected database.",
                                damage=False)
+    rule = R.rule
+    concsuite.run_conc(R, ctx, "pubsub", ["pubsub"], (4, 40))
+    R.rule = rule + (" Concurrent exploration: 3 stable subscribers on two channels that keep issuing PING on their own connections, 4 publishers "
+                     "publishing 25 messages each (8 B to 70 kB, CR/LF inside) and 2 churn connections subscribing and disconnecting; every subscriber's "
+                     "byte stream must be well-formed pushes containing each message exactly once, intact, each publisher's in order; PUBLISH counts at "
+                     "least the stable subscribers; publishers must get their reply within 10 s; repeated under the Go race detector.")
 
 
 def replay(R, payload):
+    if payload.get("engine") == "conc":
+        return concsuite.replay_conc(R, payload)
     return core.generic_replay(R, payload)
